@@ -3,7 +3,7 @@ import hashlib
 import json
 import os
 import re
-from lib import common as C, scen, edprog
+from lib import common as C, scen, edprog, urlcheck
 
 NAMES = ["file.txt", "with space.bin", "ünï.dat", "dir/sub/f", "dir/other", "z", "big"]
 
@@ -13,9 +13,17 @@ def content_for(rng, tag):
     return (tag + ":" + "x" * size)
 
 
-def needs_url_encoding(name):
-    """KnownClass url_encoded_target_name: Url::join percent-encodes some character of the name"""
-    return any(ord(c) > 126 or ord(c) < 33 or c in '"#<>?`{}' for c in name)
+_PLAIN = {}
+
+
+def needs_url_encoding(name, prefix=""):
+    """KnownClass url_encoded_target_name: the complement of the Coq predicate url_plain (Model/Url.v, evaluated by the
+    extracted model) on the file name the client asks for - [<hex digest>.]<resolved name>; for plain names
+    C10_published_target_found / C19_cached_target_served say the file that was put is the file that is opened"""
+    fn = prefix + name
+    if fn not in _PLAIN:
+        _PLAIN.update(urlcheck.is_plain([fn]))
+    return not _PLAIN[fn]
 
 
 class Intent:
@@ -1021,7 +1029,7 @@ def run(chk):
                     continue        # the editor refused to publish this file; nothing was claimed
                 if dl[0] != 0 or C.b2s(dl[1]) != wanted.get(name, (0, ""))[1]:
                     chk.violation("published target %r does not download and verify: %s" % (name, dl), full,
-                                  known_class="url_encoded_target_name" if needs_url_encoding(name) else None)
+                                  known_class="url_encoded_target_name" if needs_url_encoding(name, (wanted.get(name, (0, ""))[1] + ".") if cs else "") else None)
         else:
             got = {C.b2s(t[0]) for t in view["targets"]}
             if "a/two" not in got:
@@ -1062,6 +1070,9 @@ def run(chk):
             if canon_tree(mr) != canon_tree(want):
                 chk.broken("correspondence: model ed_sign_tree differs from the files RepositoryEditor::sign + write produced",
                            dict(full, model_case=case, model=canon_tree(mr), written=canon_tree(want)))
+    # where published target files are looked for: Model/Url.v against the url crate, a real directory and the real
+    # FilesystemTransport (C10_published_target_found; the known class is the complement of url_plain)
+    urlcheck.run(chk)
     return chk
 
 
